@@ -537,6 +537,16 @@ class Analysis:
                         p = rv.ops[0].place
                         if p.is_local():
                             res = self.resolve_ref(p.local, depth + 1)
+                        elif len(p.proj) == 1 and isinstance(p.proj[0], dict) and "f" in p.proj[0]:
+                            # one half of `slice.split_at(_mut)(k)` / split_first / split_last: points into the slice
+                            td = self.defs().get(p.local, [])
+                            if len(td) == 1 and getattr(td[0][2], "callee", None) is not None:
+                                tn = td[0][2]
+                                tc = tn.callee
+                                if tc.name in ("split_at", "split_at_mut") and tc.krate in ("core", "alloc", "std") and tn.args and tn.args[0].kind in ("copy", "move") and tn.args[0].place.is_local():
+                                    base = self.resolve_ref(tn.args[0].place.local, depth + 1)
+                                    if base is not None:
+                                        res = (base[0], list(base[1]) + ["[]"], base[2])
                     elif rv.kind == "cast" and rv.ops[0].kind in ("copy", "move") and rv.ops[0].place.is_local():
                         res = self.resolve_ref(rv.ops[0].place.local, depth + 1)
                 elif getattr(node, "callee", None) is not None and node.args:
@@ -701,7 +711,7 @@ class Analysis:
             names = {v: n for v, n in cond.meta}
         return cond, t.targets, t.otherwise, names
 
-    def constraints_at(self, target):
+    def constraints_at(self, target, _unfold_depth=0):
         """Path constraints that hold whenever `target` executes: for every
         switch block D that dominates target, the subset of D's outgoing
         labels from which target is reachable without passing through D again.
@@ -732,7 +742,68 @@ class Analysis:
                 if tb in cfg.succ and target in cfg.reach(tb, avoid=(d,)):
                     allowed.add(lab)
             out.append((d, cond, allowed, set(labels)))
+            # the switch tests a boolean temporary that was assigned constants on
+            # different paths (`matches!`, `a && b`, a helper returning bool that was
+            # inlined): the admitted value names the assignment the path came through,
+            # and whatever held there holds here
+            if _unfold_depth < 6 and not names and allowed and allowed != set(labels):
+                via = self._bool_temp_origin(d, allowed)
+                if via is not None and via != target:
+                    for c in self.constraints_at(via, _unfold_depth + 1):
+                        if c not in out:
+                            out.append(c)
         return out
+
+    def _bool_temp_origin(self, d, allowed):
+        """block of the unique assignment `tmp = const v` that a path leaving
+        switch block d through the `allowed` labels must have executed"""
+        fn = self.fn
+        t = fn.blocks[d].term
+        if t.discr.kind not in ("copy", "move") or not t.discr.place.is_local():
+            return None
+        if not ({lab for lab in allowed} <= {0, 1, "otherwise"}):
+            return None
+        if fn.local_ty(t.discr.place.local).get("k") != "bool":
+            return None
+        if allowed == {0}:
+            want = 0
+        elif 0 not in allowed:
+            want = 1
+        else:
+            return None
+        cur = t.discr.place.local
+        pos = (d, len(fn.blocks[d].stmts))
+        for _ in range(12):
+            rds = self.reaching_defs(cur, pos[0], pos[1])
+            if len(rds) == 1 and rds[0] != "entry":
+                dbb, didx, node = rds[0]
+                rv = getattr(node, "rv", None)
+                if rv is None:
+                    return None
+                if rv.kind == "use" and rv.ops[0].kind in ("copy", "move") and rv.ops[0].place.is_local():
+                    cur = rv.ops[0].place.local
+                    pos = (dbb, didx)
+                    continue
+                if rv.kind == "unop" and rv.j.get("op") == "Not" and rv.ops[0].kind in ("copy", "move") and rv.ops[0].place.is_local():
+                    cur = rv.ops[0].place.local
+                    pos = (dbb, didx)
+                    want = 1 - want
+                    continue
+                return None
+            sites = []
+            for r in rds:
+                if r == "entry":
+                    return None
+                dbb, didx, node = r
+                rv = getattr(node, "rv", None)
+                if rv is None or rv.kind != "use" or rv.ops[0].const_int() is None:
+                    return None
+                if int(rv.ops[0].const_int() != 0) == want:
+                    sites.append(dbb)
+            if len(sites) == 1:
+                return sites[0]
+            return None
+        return None
 
 
 # ------------------------------------------------------------- normalisers
@@ -1093,3 +1164,57 @@ def feasible_reach(an, start, env=None, limit=4000):
             for s2 in cfg.succ[bb]:
                 stack.append((s2, e))
     return out
+
+
+def result_passthrough(an, rets, is_source):
+    """Does a function return "the Result of SOURCE, up to error conversion"?
+    rets: [(bb, idx, expr, node)] return expressions; is_source(call_expr) ->
+    bool recognises the source call.  Accepted per return:
+      * SOURCE itself, possibly under map_err(..)            (direct)
+      * Ok(v) with v the success payload of SOURCE           (match/if-let/? forms)
+      * an error value returned exactly when SOURCE failed: derived from
+        SOURCE's residual (`?`), or any Err(..) in a block that is
+        control-dependent on SOURCE being Err
+    Returns (number of returns tied to SOURCE, [problem strings])."""
+    n = 0
+    problems = []
+    for bb, idx, e, node in rets:
+        es = strip(e)
+        cur = es
+        while cur.k == "call" and cur.a[0].name == "map_err" and cur.a[1]:
+            cur = strip(cur.a[1][0])
+        if cur.k == "call" and is_source(cur):
+            n += 1
+            continue
+        if es.k == "agg" and es.a[0].endswith("Result::Ok"):
+            v = strip(es.a[1]["0"])
+            p = ok_payload(v)
+            if p is not None and strip(p).k == "call" and is_source(strip(p)):
+                n += 1
+                continue
+            problems.append("returns Ok(%s), which is not the value SOURCE produced" % _short(v))
+            continue
+        # error results
+        tied = any(x.k == "call" and is_source(x) for x in es.walk()) and not (es.k == "agg" and es.a[0].endswith("Result::Ok"))
+        if not tied:
+            for d, cond, allowed, alll in an.constraints_at(bb):
+                if cond.k == "discr" and allowed and allowed <= {"Err", "Break"}:
+                    c = strip(cond.a[0])
+                    if c.k == "call" and c.a[0].name == "branch" and c.a[1]:
+                        c = strip(c.a[1][0])
+                    while c.k == "call" and c.a[0].name == "map_err" and c.a[1]:
+                        c = strip(c.a[1][0])
+                    if c.k == "call" and is_source(c):
+                        tied = True
+        is_err = (es.k == "agg" and es.a[0].endswith("Result::Err")) or (es.k == "call" and es.a[0].name == "from_residual")
+        if tied and is_err:
+            n += 1
+            continue
+        problems.append("returns %s" % _short(e))
+    return n, problems
+
+
+def _short(e, n=160):
+    s = repr(e)
+    return s if len(s) <= n else s[: n - 3] + "..."
+
